@@ -1,7 +1,7 @@
 """C04 — decided on the sequential tower model (see tools/tower_common.py, DESIGN.md section 5)."""
 import tower_common
 
-TARGETS = ["theories/Properties/C04.v"]
+TARGETS = ["theories/Properties/C04.v", "theories/Properties/C04_reorg.v"]
 MON = {"C04"}
 KNOWN = {}
 
